@@ -167,8 +167,18 @@ def run_cbmc(s, gb, wdir, tier, extra=None, timeout=None):
     if extra:
         flags += extra
     cmd = ["cbmc", gb] + flags
+    _to_keep = None
     to = timeout or s.get("timeout", {}).get(tier, 900) if isinstance(s.get("timeout"), dict) else (timeout or s.get("timeout", 900))
     rc, out, err, dt = sh(cmd, wdir, to, s.get("mem", 16), log)
+    bits = int(s.get("object_bits", 8))
+    while rc == 6 and "too many addressed objects" in (out + err) and bits < 12:
+        bits += 2
+        s["object_bits"] = bits          # remembered for the further runs of this set
+        cmd = [c for c in cmd]
+        i = cmd.index("--object-bits")
+        cmd[i + 1] = str(bits)
+        rc, out, err, dt2 = sh(cmd, wdir, to, s.get("mem", 16), log)
+        dt += dt2
     return cmd, rc, out, err, dt
 
 
